@@ -503,6 +503,8 @@ _NORM_METHODS = {"replace": ("NReplace", 2), "lstrip": ("NLstrip", 1), "rstrip":
 
 def _norm_chain(e):
     """`str(path)` followed by string methods with constant arguments, innermost first: [(op, args...)]"""
+    if ast.unparse(e) == "path.as_posix()":     # only the platform's own separator is converted: nothing on POSIX
+        return []
     if isinstance(e, ast.Call) and isinstance(e.func, ast.Name) and e.func.id == "str":
         if len(e.args) != 1 or e.keywords or ast.unparse(e.args[0]) != "path":
             raise Unsupported("normalize_path_string: str(path)")
